@@ -14,7 +14,7 @@ RULE = ('Hypothesis-generated world plans: stack in {Thrift (aperture / resurrec
         'while it is still opening with first-connect delays from 1 ms to longer than the timeout, per endpoint a connect '
         'script (accept after d / refuse / hang) and a per-request script (reply after d / never / application error / close / '
         'reset / half a frame then close / mux ERROR, NACK, Rerr), server kill / down / up / silent events, 1-8 calls with '
-        'timeout T in {20, 50, 100, 250 ms, 1 s}; a sixth of the plans run for ~5 s with an aperture that jitters every 1-2 s over 2-4 endpoints with connect delays up to 2.5 s; delays are drawn from a palette centred on each deadline (T-11 .. T+11 ms, 0, '
+        'timeout T in {20, 50, 100, 250 ms, 1 s, and in one plan of 16 5.5 s; per-call timeouts up to 6.2 s}; a sixth of the plans run for ~5 s with an aperture that jitters every 1-2 s over 2-4 endpoints with connect delays up to 2.5 s; delays are drawn from a palette centred on each deadline (T-11 .. T+11 ms, 0, '
         '1, 5 ms, 10 T). Oracle per call: completes exactly once by the end of the run, value/exception at the end equal to '
         'the first completion, outcome is the echo of one endpoint / an error / TimeoutError, completion <= ceil10ms(t+T) + '
         '1 ms, TimeoutError never before t+T - 1 ms. Non-trivial = some reply, fault or open completion fell within 15 ms of a '
@@ -58,7 +58,8 @@ def server_strategy(T, stack):
 
 @st.composite
 def plans(draw, stacks=('thrift', 'thriftmux'), max_calls=8):
-  T = draw(st.sampled_from(TIMEOUTS))
+  # mostly short timeouts; now and then one of several seconds (where a coarser timer might be tempting)
+  T = draw(st.sampled_from(TIMEOUTS * 3 + [5500]))
   stack = draw(st.sampled_from(list(stacks)))
   nports = draw(st.integers(1, 4))
   ports = [9001 + i for i in range(nports)]
@@ -72,7 +73,7 @@ def plans(draw, stacks=('thrift', 'thriftmux'), max_calls=8):
   calls = []
   for i in range(ncalls):
     calls.append({'at': draw(st.integers(0, 2 * T)), 'method': 'hi', 'arg': 'c%d' % i,
-                  'timeout_ms': draw(st.sampled_from([None, None, None, 20, 50, 100])),
+                  'timeout_ms': draw(st.sampled_from([None, None, None, None, None, None, 20, 20, 50, 50, 100, 100, 6200])),
                   'via_dispatcher': draw(st.booleans())})
   wait_open = draw(st.sampled_from([True, True, False]))
   pool = None
